@@ -95,6 +95,12 @@ func (r linkDestinationReplacer) collectReplacements(src []byte) []replacement {
 		}
 		line := src[lineStart:lineEnd]
 
+		// An HTML block that is not a raw-text element, a comment, a processing
+		// instruction, a declaration or CDATA ends at a blank line.
+		if html.rawTag == "" && html.rawCloser == "" && len(html.stack) > 0 && util.IsBlank(line) {
+			html.stack = html.stack[:0]
+		}
+
 		if inFence {
 			if isFenceClose(line, fenceChar, fenceLen) {
 				inFence = false
@@ -418,7 +424,7 @@ func isVoidElement(tag string) bool {
 
 func isRawTextElement(tag string) bool {
 	switch tag {
-	case "script", "style", "textarea":
+	case "script", "style", "textarea", "pre":
 		return true
 	}
 	return false
